@@ -377,6 +377,9 @@ def r07_13(ctx):
 
 
 def run(ctx):
+    ctx.rule("R07.15", "= R14.12: the character reference states as transcribed - in particular a name still being matched waits for more input (Stuck) when the chunk ends, so `&amp` | `;` read from the serializer's output in two chunks is one reference")
+    from . import charrefspec as _crs
+    ctx.guard("R07.15", "charref-machine", lambda: _crs.charref_machine(ctx, "R07.15", "html"))
     ctx.rule("R07.14", "the re-parse does not restructure what was serialized: 'is this formatting entry still open' searches the whole stack (R02.15), and the end tags of all formatting elements run the adoption agency (R02.1)")
     from . import tbhelpers as _tbh
     ctx.guard("R07.14", "marker-or-open", lambda: ctx.under("R07.14", lambda: _tbh.marker_or_open(ctx)))
